@@ -76,8 +76,15 @@ func runC14(p *Program, e *Engine, r *Result, tier string) {
 					}
 				}
 			case *ssa.Const:
-				ok = true
-				wit = "constant " + sp
+				// a literal (or a per-platform constant, indistinguishable here): it must be the platform's default as
+				// the backends define it today - unbuffered everywhere, 50 on Windows
+				want := uint64(0)
+				if strings.Contains(strings.Join(a.R.Files, " "), "backend_windows.go") {
+					want = 50
+				}
+				k, isInt := constUint(x)
+				ok = isInt && k == want
+				wit = sprintf("constant %s (platform default %d)", sp, want)
 			}
 			a.R.ob("C14.1", ctor.Name()+":capacity", "NewWatcher's capacity is the platform default (a constant)", a.P.instrPos(mk), ok, wit)
 		}
